@@ -5,8 +5,16 @@ import json, os
 from . import tlc
 from .ctx import MachineryError
 
+import re
+def _maxl(r):
+    """Longest matched prefix reported by a trace spec with silent steps: <<"MAXL", l>> (l = next line, 1-based)."""
+    m = re.search(r'<<"MAXL", (\d+)>>', r.out)
+    if not m:
+        raise MachineryError("trace spec did not report MAXL:\n" + r.out[-2000:])
+    return int(m.group(1))
+
 def validate(ctx, module, histories, keyfn, cfg=None, max_rounds=6, timeout=900, deque=False, name=None, env=None,
-             prelude=None):
+             prelude=None, maxl=False):
     """histories: list of (label, [events]).  keyfn(label, event, idx) -> finding key.
     prelude: events prepended to every file (e.g. a Config line).
     Returns number of rejected histories."""
@@ -32,6 +40,8 @@ def validate(ctx, module, histories, keyfn, cfg=None, max_rounds=6, timeout=900,
         if ok:
             ctx.add_traces(len(hs))
             break
+        if maxl:
+            depth = _maxl(r)
         bad = min(max(depth - 1, 0), len(events) - 1)
         hi = max(i for i, st in enumerate(starts) if st <= bad) if starts and bad >= starts[0] else 0
         st = starts[hi]
@@ -46,6 +56,8 @@ def validate(ctx, module, histories, keyfn, cfg=None, max_rounds=6, timeout=900,
         ok1, depth1, r1 = tlc.validate_trace(module, p1, cfg=cfg, timeout=timeout, deque=deque, env=env)
         if r1.error:
             raise MachineryError(r1.error)
+        if maxl and not ok1:
+            depth1 = _maxl(r1)
         if not ok1:
             rejected += 1
             idx1 = min(max(depth1 - 1 - len(prelude or []), 0), len(evs) - 1)
